@@ -209,9 +209,17 @@ def run(ctx, rep, tier):
     for tb in transition_body_paths(ctx):
         row, probs = check_row(tb)
         evs = tb.events
+        if tb.get("LEAVES") is True and tb.get("NOOVERRIDE") is True:
+            continue     # infeasible (the flag is set only for an action whose override mode is not NONE: check_leaves_flag)
         for i, e in enumerate(evs):
             if e.kind == "GOTO" and e.a in ("repeatswitch", "fall") and not any(x.kind == "ADV" for x in evs[:i]):
                 n += 1
+                if tb.get("INSTATES") is False and tb.get("LEAVES") is True:
+                    # the transition's own target is not part of the machine, so some action always leaves (dfs skips a target only then: C05.d); control reaches this goto
+                    # only through the skip label, i.e. from an action template that jumped - and those store the state before they jump (second half of this rule)
+                    rep.check(e.a == "repeatswitch", "C04.e", "CodegenCtx._generate_transition_body", f"{e.a}: {tb.valuation_str()} (state stored by the action that jumped)",
+                              "a direct jump to the index of a state that is not part of the machine")
+                    continue
                 rep.check(any(x.kind == "SETSTATE" for x in evs[:i]), "C04.e", "CodegenCtx._generate_transition_body", f"{e.a}: {tb.valuation_str()}",
                           "a non-consuming goto is emitted without storing the new state first: the C loops on the old state although the DFA moved on")
     actx = action_contexts(ctx)
